@@ -72,10 +72,32 @@ def explore_c15(rng, tier, res, deep=False):
     low = Low()
     seen_valid = []
     carry = None
-    for i in range(n):
+    # absolute queries inside filters on a value that is then edited exactly where `$…` looks: first round as it is,
+    # second round with the compiled objects kept and the edit applied to the same container
+    forced = [
+        ("$.items[?@.n == $.want]", {"want": 1, "items": [{"n": 1}, {"n": 2}]}, lambda d: d.__setitem__("want", 2)),
+        ("$[?@ == $[0]]", [1, 2, 1, 3], lambda d: d.__setitem__(0, 3)),
+        ("$.a[?$.flag]", {"a": [0, "", None]}, lambda d: d.__setitem__("flag", None)),
+        ("$..[?@.a == $.b]", {"b": 1, "x": [{"a": 1}, {"a": 2}]}, lambda d: d.__setitem__("b", 2)),
+        ("$.a[?count($.a[*]) > 2]", {"a": [1, 2]}, lambda d: d["a"].append(3)),
+        ("$.k[?@ < $.lim]", {"lim": 2, "k": [1, 2, 3]}, lambda d: d.__setitem__("lim", 4)),
+        ("$[?@.v == $[-1].v]", [{"v": 1}, {"v": 2}], lambda d: d.append({"v": 1})),
+        ("$..*", {"a": {"b": 1}}, lambda d: d["a"].__setitem__("c", [2])),
+        ("$..[?@]", [[1], [2]], lambda d: d.pop(0)),
+    ]
+    forced_edit = None
+    for i in range(n + 2 * len(forced)):
         doc = doc_with_all_kinds(rng, rng.choice([2, 3]))
         q = walk_query(rng, doc, g, filters=True) if i % 2 else g.query()
-        if i % 5 == 0:
+        forced_edit = None
+        if i < 2 * len(forced):
+            fq, fdoc, fedit = forced[i // 2]
+            if i % 2 == 0:
+                forced[i // 2] = (fq, json.loads(json.dumps(fdoc)), fedit)
+                q, doc = fq, forced[i // 2][1]
+            else:
+                forced_edit = fedit
+        if i % 5 == 0 and i >= 2 * len(forced):
             # a singular path to some value of the document, then one more name/index step whatever that value is
             # (strings, numbers, null, containers): every entry point must treat the extra step alike
             q = "$"
@@ -91,7 +113,7 @@ def explore_c15(rng, tier, res, deep=False):
                     cur = cur[key]
             q += rng.choice(["[0]", "[-1]", "[1]", "['a']", "['0']", "[0][0]", ".a", "[0]['a']"])
         k = rng.random()
-        if i % 5 == 0:
+        if i % 5 == 0 or i < 2 * len(forced):
             pass
         elif k < 0.12 and seen_valid:
             # a query text that differs from one used before on the same environments only by blank space at its ends
@@ -107,7 +129,10 @@ def explore_c15(rng, tier, res, deep=False):
         # (the same Python object): what a compiled query remembers about a value must not make query.find
         # disagree with the entry points that compile afresh
         reuse = None
-        if carry is not None and rng.random() < 0.25 and isinstance(carry[1], (dict, list)):
+        if forced_edit is not None and carry is not None:
+            q, doc, reuse = carry
+            forced_edit(doc)
+        elif i >= 2 * len(forced) and carry is not None and rng.random() < 0.25 and isinstance(carry[1], (dict, list)):
             q, doc, reuse = carry
             edit_in_place(rng, doc)
         kept = {}
